@@ -27,7 +27,6 @@ import QecVerif.Model.Ftp
 namespace Qec.Smwpm
 open Qec Qec.Dec
 
-abbrev Idx2 := Int × Int
 /-- `(t, x, y)` -/
 abbrev TIdx := Int × Int × Int
 /-- `((t, x, y), is_row)` -/
@@ -273,13 +272,13 @@ inductive CKind | defective | neutral | corner | extra
   deriving DecidableEq, Repr
 
 /-- a `_ClusterNode`: `x_index`, `z_index` (dummies for the extra node, whose indices are `None`) -/
-structure CNode where
+structure ClNode where
   kind : CKind
   x : TIdx
   z : TIdx
   deriving DecidableEq, Repr
 
-def CNode.virt (n : CNode) : Bool := n.kind = .corner || n.kind = .extra
+def ClNode.virt (n : ClNode) : Bool := n.kind = .corner || n.kind = .extra
 
 /-- `_cluster_corner_indices`: `[sw, nw, ne, se]` as `((Xx, Xy), (Zx, Zy))` -/
 def cornerIndices (R C : Int) : List (Idx2 × Idx2) :=
@@ -292,14 +291,14 @@ def cornerIndices (R C : Int) : List (Idx2 × Idx2) :=
   [sw, nw, ne, se]
 
 /-- the `_ClusterNode`s created for one cluster: one defective node, or two neutral nodes, or none -/
-def nodesOfCluster (cl : List TIdx) : Except Err (List CNode) :=
+def nodesOfCluster (cl : List TIdx) : Except Err (List ClNode) :=
   match splitCluster cl with
   | .error e => .error e
   | .ok (_, _, some (dx, dz)) => .ok [⟨.defective, dx, dz⟩]
   | .ok (x0 :: _, z0 :: _, none) => .ok [⟨.neutral, x0, z0⟩, ⟨.neutral, x0, z0⟩]
   | .ok (_, _, none) => .ok []
 
-def realNodes : List (List TIdx) → Except Err (List CNode)
+def realNodes : List (List TIdx) → Except Err (List ClNode)
   | [] => .ok []
   | cl :: cls =>
     match nodesOfCluster cl with
@@ -309,15 +308,15 @@ def realNodes : List (List TIdx) → Except Err (List CNode)
       | .error e => .error e
       | .ok ms => .ok (ns ++ ms)
 
-def cornerNodes (R C : Int) (T : Nat) : List CNode :=
+def cornerNodes (R C : Int) (T : Nat) : List ClNode :=
   (cornerIndices R C).flatMap fun c => (List.range T).map fun (t : Nat) =>
     ⟨.corner, ((t : Int), c.1.1, c.1.2), ((t : Int), c.2.1, c.2.2)⟩
 
-def nDefective (ns : List CNode) : Nat := ns.countP fun n => n.kind = .defective
+def nDefective (ns : List ClNode) : Nat := ns.countP fun n => n.kind = .defective
 
 /-- the `_ClusterNode` objects of the cluster graph in CREATION order: per cluster, then the extra node (odd number
     of defective clusters), then the corner nodes.  Empty when there is no defective cluster (empty graph). -/
-def clusterNodes (R C : Int) (T : Nat) (cls : List (List TIdx)) : Except Err (List CNode) :=
+def clusterNodes (R C : Int) (T : Nat) (cls : List (List TIdx)) : Except Err (List ClNode) :=
   match realNodes cls with
   | .error e => .error e
   | .ok ns =>
@@ -325,7 +324,7 @@ def clusterNodes (R C : Int) (T : Nat) (cls : List (List TIdx)) : Except Err (Li
     else .ok (ns ++ (if nDefective ns % 2 = 1 then [⟨.extra, (0, 0, 0), (0, 0, 0)⟩] else []) ++ cornerNodes R C T)
 
 /-- edges of the cluster graph over creation indices: corner–extra, and every pair of non-extra nodes -/
-def clusterEdgeOk (ns : List CNode) (i j : Nat) : Bool :=
+def clusterEdgeOk (ns : List ClNode) (i j : Nat) : Bool :=
   match ns[i]?, ns[j]? with
   | some a, some b =>
     if a.kind = .extra then b.kind = .corner
@@ -333,11 +332,11 @@ def clusterEdgeOk (ns : List CNode) (i j : Nat) : Bool :=
     else true
   | _, _ => false
 
-def clusterEdges (ns : List CNode) : List (Nat × Nat) :=
+def clusterEdges (ns : List ClNode) : List (Nat × Nat) :=
   (pairsOf (List.range ns.length)).filter fun p => clusterEdgeOk ns p.1 p.2
 
 /-- the pairs of `(t, x, y)` indices fused by `_cluster_recovery` for one match -/
-def matchPairs (ns : List CNode) (m : Nat × Nat) : Except Err (List (TIdx × TIdx)) :=
+def matchPairs (ns : List ClNode) (m : Nat × Nat) : Except Err (List (TIdx × TIdx)) :=
   match ns[m.1]?, ns[m.2]? with
   | some a, some b =>
     if a.virt && b.virt then .ok []
@@ -345,7 +344,7 @@ def matchPairs (ns : List CNode) (m : Nat × Nat) : Except Err (List (TIdx × TI
     else .ok [(a.x, b.x), (a.z, b.z)]
   | _, _ => .error .badNode
 
-def allMatchPairs (ns : List CNode) : List (Nat × Nat) → Except Err (List (TIdx × TIdx))
+def allMatchPairs (ns : List ClNode) : List (Nat × Nat) → Except Err (List (TIdx × TIdx))
   | [] => .ok []
   | m :: ms =>
     match matchPairs ns m with
@@ -356,7 +355,7 @@ def allMatchPairs (ns : List CNode) : List (Nat × Nat) → Except Err (List (TI
       | .ok qs => .ok (ps ++ qs)
 
 /-- `_cluster_recovery(code, cluster_matches)` -/
-def clusterRecovery (R C : Int) (ns : List CNode) (cms : List (Nat × Nat)) : Except Err BVec :=
+def clusterRecovery (R C : Int) (ns : List ClNode) (cms : List (Nat × Nat)) : Except Err BVec :=
   match allMatchPairs ns cms with
   | .error e => .error e
   | .ok ps => applyPairs R C ps (RotatedPlanar.identity R C)
